@@ -41,9 +41,9 @@ func c03ExhCount(tier string) int {
 
 func c03Seeded(tier string) int {
 	if tier == "thorough" {
-		return 6000
+		return 12000
 	}
-	return 300
+	return 900
 }
 
 func (p *c03) NumCases(tier string) int {
